@@ -511,6 +511,37 @@ fn anf<'a>(
             )
         }
         LiftExpr::EBinary {
+            op: op @ (common_defs::BinaryOp::And | common_defs::BinaryOp::Or),
+            lhs,
+            rhs,
+            ty: _,
+        } if !matches!(*rhs, LiftExpr::EVar { .. } | LiftExpr::EPrim { .. }) => {
+            // `a && b` / `a || b` must not evaluate `b` when `a` decides: binding `b` to a
+            // temporary first would always run it, so lower to a conditional instead
+            let decided = LiftExpr::EPrim {
+                value: Prim::Bool {
+                    value: matches!(op, common_defs::BinaryOp::Or),
+                },
+                ty: Ty::TBool,
+            };
+            let (then_branch, else_branch) = if matches!(op, common_defs::BinaryOp::And) {
+                (rhs, Box::new(decided))
+            } else {
+                (Box::new(decided), rhs)
+            };
+            anf(
+                anfenv,
+                gensym,
+                LiftExpr::EIf {
+                    cond: lhs,
+                    then_branch,
+                    else_branch,
+                    ty: Ty::TBool,
+                },
+                k,
+            )
+        }
+        LiftExpr::EBinary {
             op,
             lhs,
             rhs,
